@@ -76,6 +76,10 @@ def classify_tree(first, names):
     # known C01 deviation that redundant parentheses make visible: `match x,:` keeps `x`, `match (x,):` gives the tuple
     if first[1].endswith("Match.subject") and (first[2].startswith("Tuple@") != first[3].startswith("Tuple@")):
         return "match-subject-trailing-comma-not-tuple"
+    # the same with a subject that is itself a tuple display: `match (a, b),:` keeps the inner tuple, `match ((a, b),):` gives the
+    # one-element tuple that holds it
+    if first[1].endswith("Match.subject/Tuple.elts") and first[2] != first[3] and "'len 1'" in (first[2], first[3]):
+        return "match-subject-trailing-comma-not-tuple"
     return "unlisted:tree-changes-with-layout"
 
 
